@@ -62,6 +62,9 @@ REASON_AUTHENTICATION_NOT_SUCCESSFUL = 0x03
 REASON_INVALID_MESSAGE = 0x04
 
 FAIL = "FAIL"
+# extended key usage sets (harness.make_cert) that carry the client-authentication usage; 'any'
+# (anyExtendedKeyUsage), 'server+any' and 'other' do not carry it
+HAS_CLIENT_AUTH = ("client", "both", "client+any")
 
 logging.getLogger("kmip.server.session").addHandler(logging.NullHandler())
 
@@ -110,7 +113,7 @@ def model(spec):
     cert = spec["cert"]
     if cert is None:
         return {FAIL}
-    if spec["tls"] and cert["eku"] not in ("client", "both"):
+    if spec["tls"] and cert["eku"] not in HAS_CLIENT_AUTH:
         return {FAIL}
     if len(cert["cns"]) != 1:
         return {FAIL}
@@ -255,6 +258,42 @@ def not_a_request(body_hex):
         or not kids[0]["children"]
 
 
+_conf = {}
+
+
+def settings_via_config(blocks, optcase):
+    """The plug-in settings as the server gets them: written to a configuration file (option names
+    spelled lower / Title / UPPER case - option names of an INI file are case-insensitive) and read
+    back with KmipServerConfig.load_settings()."""
+    import os
+    import tempfile
+    from kmip.services.server import config as kconfig
+    if "dir" not in _conf:
+        _conf["dir"] = tempfile.mkdtemp(prefix="c17-conf-")
+        for n in ("cert.pem", "key.pem", "ca.pem"):
+            open(os.path.join(_conf["dir"], n), "w").close()
+    d = _conf["dir"]
+    sp = {"lower": str.lower, "title": str.title, "upper": str.upper}[optcase]
+    lines = ["[server]", "hostname=127.0.0.1", "port=5696", "certificate_path=%s/cert.pem" % d,
+             "key_path=%s/key.pem" % d, "ca_path=%s/ca.pem" % d, "auth_suite=TLS1.2",
+             "enable_tls_client_auth=True", "logging_level=INFO", ""]
+    for b in blocks:
+        lines.append("[%s]" % b["name"])
+        if b.get("enabled") is not None:
+            lines.append("%s=%s" % (sp("enabled"), b["enabled"]))
+        if b.get("url") is not None:
+            lines.append("%s=%s" % (sp("url"), b["url"]))
+        lines.append("")
+    path = os.path.join(d, "server-%d.conf" % os.getpid())
+    with open(path, "w") as f:
+        f.write("\n".join(lines))
+    c = kconfig.KmipServerConfig()
+    lg = logging.getLogger("kmip.server.config")
+    lg.addHandler(logging.NullHandler())
+    c.load_settings(path)
+    return list(c.settings["auth_plugins"])
+
+
 def _der(cert):
     return harness.make_cert(tuple(cert["cns"]), cert["eku"], cert.get("layout", "separate"),
                              cert.get("issuer_cn"))
@@ -311,6 +350,13 @@ class Rig(object):
                 if b.get("url") is not None:
                     cfg["url"] = b["url"]
                 settings.append((b["name"], cfg))
+            if spec.get("via_config"):
+                # section names must be unique in a file; values must survive the INI round trip
+                names = [b["name"] for b in spec["plugins"]]
+                if len(set(names)) == len(names) and all(
+                        "%" not in (b.get("url") or "") and (b.get("enabled") or "x").strip() ==
+                        (b.get("enabled") or "x") and (b.get("enabled") != "") for b in spec["plugins"]):
+                    settings = settings_via_config(spec["plugins"], spec["via_config"])
             self.fake.script(spec)
             accept = model(spec)
         except core.HarnessError:
@@ -586,7 +632,7 @@ def _why_fail(spec):
     cert = spec["cert"]
     if cert is None:
         return "no-certificate"
-    if spec["tls"] and cert["eku"] not in ("client", "both"):
+    if spec["tls"] and cert["eku"] not in HAS_CLIENT_AUTH:
         return "eku-" + ("absent" if cert["eku"] is None else "without-clientauth")
     if len(cert["cns"]) != 1:
         return "cn-count-%s" % ("0" if not cert["cns"] else "many")
@@ -645,7 +691,7 @@ def plugin_class(blocks):
 def is_trivial(spec):
     cert = spec["cert"]
     return (cert is not None and len(cert["cns"]) == 1 and not spec["plugins"]
-            and (not spec["tls"] or cert["eku"] in ("client", "both")))
+            and (not spec["tls"] or cert["eku"] in HAS_CLIENT_AUTH))
 
 
 # ------------------------------------------------------------------------------ part A: product
@@ -701,6 +747,8 @@ def cert_shapes():
     for cns, eku in itertools.product([[], ["alice"], ["alice", "bob"]],
                                       [None, "server", "client", "both"]):
         out.append({"cns": cns, "eku": eku})
+    for eku in ("any", "server+any", "other", "client+any"):
+        out.append({"cns": ["alice"], "eku": eku})
     # where the common names sit in the subject: several in ONE multi-valued RDN (CN=a+CN=b),
     # next to another attribute type in one RDN, before the organisation, and an issuer with a
     # common name of its own (must not be taken for the client's)
@@ -724,6 +772,15 @@ def product_cells():
     for cert, tls, plugins, req in itertools.product(cert_shapes(), [True, False],
                                                      plugin_configs(), REQUESTS):
         yield {"cert": cert, "tls": tls, "plugins": plugins, "req": req}
+    # the same plug-in configurations as the server reads them from its configuration file, with
+    # the option names in each spelling; a certificate that passes, one request kind
+    cert = {"cns": ["alice"], "eku": "client"}
+    for plugins in plugin_configs():
+        if not plugins:
+            continue
+        for optcase in ("lower", "title", "upper"):
+            yield {"cert": cert, "tls": True, "plugins": plugins, "req": REQUESTS[1],
+                   "via_config": optcase}
 
 
 def worker_product(shard, nshards):
@@ -868,7 +925,8 @@ def case_strategy():
             names = [draw(cn)]
         else:
             names = draw(st.lists(cn, min_size=0, max_size=3, unique=True))
-        eku = draw(st.sampled_from([None, "server", "client", "client", "both", "both"]))
+        eku = draw(st.sampled_from([None, "server", "client", "client", "both", "both", "client+any",
+                                    "any", "server+any", "other"]))
         c = {"cns": names, "eku": eku}
         lay = draw(st.sampled_from(["separate"] * 4 + ["multi", "multi", "multi-ou", "cn-first"]))
         if lay != "separate":
@@ -919,7 +977,8 @@ def case_strategy():
                                         st.sampled_from(["pw", ""])).map(list)}),
         st.fixed_dictionaries({"kind": st.just("undecodable"), "body": undec}))
     return st.fixed_dictionaries({"cert": cert, "tls": st.booleans(), "plugins": plugins(),
-                                  "req": req})
+                                  "req": req},
+                                 optional={"via_config": st.sampled_from(["lower", "title", "upper"])})
 
 
 _QUERY = []
